@@ -21,6 +21,9 @@ GenPeers2s == << [kind |-> "p2p", locals |-> <<0>>, delay |-> 0, host |-> 0],
                  [kind |-> "p2p", locals |-> <<1>>, delay |-> 0, host |-> 0],
                  [kind |-> "spec", locals |-> <<>>, delay |-> 0, host |-> 1] >>
 GenValues == {0, 1}
+GenValues1 == {1}      \* (timer models: the input values do not matter)
 NoClock == {}
+Clk250 == {250}        \* with Notify 300 / Timeout 600: two steps of silence interrupt, three disconnect
+Clk350 == {350}
 
 =============================================================================
